@@ -142,9 +142,48 @@ def norm_kind(fn, bb, t):
     return None
 
 
+_GUARDED = {}
+
+
+def guarded_subtractions(F, fn):
+    """Blocks of `a - b` overflow assertions that every path reaches only after having established a >= b by a comparison
+    of the same two values (`if end <= start { 0 } else { end - start }`): discharged, they cannot fire."""
+    if fn.key in _GUARDED:
+        return _GUARDED[fn.key]
+    res = set()
+    has = False
+    for bb in fn.reachable():
+        t = fn.term(bb)
+        if t["k"] == "assert" and "Overflow" in t["msg"] and any(st["k"] == "assign" and st["rv"]["k"] == "binop" and st["rv"]["op"] == "SubWithOverflow" for st in fn.blocks[bb]["stmts"]):
+            has = True
+    if has:
+        try:
+            from .common import run_fn, LogModel, ordering_of
+            from .cursor import GETTERS
+            ex, paths = run_fn(fn, F, LogModel(), max_paths=3000, desugar=None, inline=GETTERS)
+            seen = {}
+            for p in paths:
+                for e in p.events:
+                    if e[0] == "assert" and len(e) > 4 and e[4] and e[4][0] == "SubWithOverflow" and e[1] in fn.reachable():
+                        a_, b_ = e[4][1], e[4][2]
+                        idx = p.events.index(e)
+                        conds = p.conds
+                        o = ordering_of(conds, lambda x: x == a_, lambda x: x == b_)
+                        seen.setdefault(e[1], []).append(o <= {"E", "G"})
+            if not ex.truncated:
+                res = {bb for bb, v in seen.items() if v and all(v)}
+        except Exception:
+            res = set()
+    _GUARDED[fn.key] = res
+    return res
+
+
 def sites(fn):
     out = []
+    guarded = guarded_subtractions(fn.facts, fn) if hasattr(fn, "facts") and fn.facts is not None else set()
     for bb in sorted(fn.reachable()):
+        if bb in guarded:
+            continue
         t = fn.term(bb)
         if t["k"] not in ("assert", "call"):
             continue
@@ -214,7 +253,15 @@ def analyze(ctx, want):
         ctx.floor(rule, "%s-path reachable functions" % group, nreach, {"scan": 40, "build": 100, "dot": 5}[group])
         total = 0
         classes = Counter()
-        for name, (c, locs, fn) in sorted(g.items()):
+        for name, (c0, locs0, fn) in sorted(g.items()):
+            # `v[i]`, `v.get(i).unwrap()`, `opt.unwrap()`: one class of site ("access that presumes presence"); rewriting one
+            # into the other does not change what has to be justified, so they are counted together per function
+            c = Counter()
+            locs = {}
+            for kind, n in c0.items():
+                k2 = "call:access" if kind in ("call:unwrap", "call:index") else kind
+                c[k2] += n
+                locs.setdefault(k2, []).extend(locs0[kind])
             for kind, n in sorted(c.items()):
                 total += n
                 if kind.split(":")[-1] in PTR_CHECKS:
@@ -222,7 +269,7 @@ def analyze(ctx, want):
                     ctx.ob(rule, "site:%s:%s" % (M.short_name(name), kind), True,
                            "%d compiler-inserted debug check(s) on a pointer derived from a live Box/Arc/reference" % n, locs[kind][0])
                     continue
-                rows = [r for r in TABLE if re.search(r[0], name) and r[1] == kind]
+                rows = [r for r in TABLE if re.search(r[0], name) and (r[1] == kind or (kind == "call:access" and r[1] in ("call:unwrap", "call:index")))]
                 allowed = sum(r[2] for r in rows)
                 ok = n <= allowed
                 why = rows[0][4] if rows else ""
